@@ -1674,6 +1674,7 @@ def np_lstsq(ctx, a, b, rcond=None):
     """Abstract: some solution vector (its least-squares property is not used by the frame obligations)."""
     a = arr(ctx, a)
     x = A.fresh_array(ctx, 'lstsq_x', (a.shape[1],), 'float')
+    ctx.__dict__.setdefault('ghost_lstsq_calls', []).append({'A': a.snapshot(), 'b': arr(ctx, b).snapshot(), 'x': x})
     return (x, None, None, None)
 
 
